@@ -10,15 +10,17 @@ pub fn prop() -> Prop {
   Prop {
     id: "C06",
     rule: "case = (subject type in Subject / SubjectThreads / MutRefItemSubject / MutRefErrSubject / MutRefItemErrSubject; history of <= 10 operations over <= 4 subscribers: subscribe, subscribe a probe that subscribes a further probe to a clone of the subject from inside its first callback, unsubscribe one subscription, next (numbered items), error, complete, retain, unsubscribe the subject; every operation goes through a fresh clone of the subject). \
-           Oracle (model = ordered list of live subscribers): every subscriber's trace equals the items sent while it was subscribed (joined before the emission began, not yet unsubscribed), each exactly once and in order, then the subject's terminal once; the in-callback subscriber does not see the in-flight item and sees every later one; after a terminal or unsubscribe() nothing is delivered to anybody and is_finished() and is_empty() are true; before that is_finished() is false. Non-trivial: a join or leave between two emissions, or an emission after a terminal/unsubscribe, or an in-callback join. Distinct by hash(case). Part `short` enumerates every history of length <= 5 for every subject type (thorough tier).",
+           Oracle (model = ordered list of live subscribers): every subscriber's trace equals the items sent while it was subscribed (joined before the emission began, not yet unsubscribed), each exactly once and in order, then the subject's terminal once; the in-callback subscriber does not see the in-flight item and sees every later one; after a terminal or unsubscribe() nothing is delivered to anybody and is_finished() and is_empty() are true; before that is_finished() is false. Non-trivial: a join or leave between two emissions, or an emission after a terminal/unsubscribe, or an in-callback join. Distinct by hash(case). Part `short` enumerates every history of length <= 5 for every subject type (thorough tier). \
+           Part `threads` (engine T): 2..3 threads each run <= 4 operations (next / complete / error / subscribe / unsubscribe) on one shared SubjectThreads with 1..2 probes subscribed up front, under a generated schedule of <= 3 preemptions at lock-acquisition granularity. Oracle: an item whose next() began after a subscriber's subscribe() had returned, and ended before any unsubscribe of that subscriber or any terminal began, is received by that subscriber exactly once; nobody receives an item twice, or an item whose next() began after its unsubscribe() had returned or ended before its subscribe() began; items of one producer arrive in order; at most one terminal per subscriber and nothing after it; no deadlock / panic.",
     assumptions: &[
       "len() of a live subject is not constrained by the statement and is not checked",
       "a subscriber that joins after the subject terminated must receive nothing (it may or may not be told about the terminal: not checked)",
-      "thread interleavings on SubjectThreads are the engine-T part's job",
+      "threads part: interleavings at lock-acquisition granularity, sequentially consistent",
     ],
     parts: vec![
       Part { name: "histories", run: run_random, tape_len: 48, quick_cases: 1_000_000, thorough_cases: 20_000_000, exhaustive_depth: None, exhaustive_budget: 0, exh_quick: false },
       Part { name: "short", run: run_short, tape_len: 16, quick_cases: 0, thorough_cases: 0, exhaustive_depth: Some(12), exhaustive_budget: 40_000_000, exh_quick: false },
+      Part { name: "threads", run: run_threads, tape_len: 48, quick_cases: 30_000, thorough_cases: 1_000_000, exhaustive_depth: None, exhaustive_budget: 0, exh_quick: false },
     ],
   }
 }
@@ -258,4 +260,84 @@ fn run_short(c: &mut dyn Choices, ctx: &Ctx) -> Outcome {
     })
     .collect();
   finish(kind, ops, ctx)
+}
+
+
+// ------------------------------------------------------------ engine T part
+
+fn run_threads(c: &mut dyn Choices, ctx: &Ctx) -> Outcome {
+  use crate::props::c10::{case_json, execute, gen_scripts, judge as judge_c10, TCase};
+  use crate::tworld::PEv;
+  let (pre_subs, scripts) = gen_scripts(c, 0);
+  let n = scripts.len();
+  let k = c.pick(4);
+  let mut preemptions: Vec<(u64, usize)> = (0..k).map(|_| (1 + c.pick(50) as u64, c.pick(n))).collect();
+  preemptions.sort();
+  preemptions.dedup_by_key(|p| p.0);
+  let case = TCase { pipe: 0, pre_subs, scripts, preemptions };
+  let o = execute(&case);
+  let mut verdict = judge_c10(&case, &o);
+  if let Verdict::Ok = verdict {
+    verdict = (|| {
+      // subscription intervals per probe
+      let sub_of = |p: usize| o.calls.iter().find(|c| c.what == "Subscribe" && c.probe == Some(p)).map(|c| (c.begin, c.end));
+      let unsub_of = |p: usize| o.calls.iter().find(|c| c.what.starts_with("Unsubscribe") && c.probe == Some(p)).map(|c| (c.begin, c.end));
+      let term = o.calls.iter().filter(|c| c.what == "Complete(0)" || c.what == "Error(0)").map(|c| (c.begin, c.end)).min();
+      let mut probes: Vec<usize> = o.pre_probes.clone();
+      probes.extend(o.calls.iter().filter_map(|c| if c.what == "Subscribe" { c.probe } else { None }));
+      for p in probes {
+        let got: Vec<&PEv> = o.deliveries.iter().filter(|(_, q, _)| *q == p).map(|(_, _, e)| e).collect();
+        // grammar
+        if let Some(pos) = got.iter().position(|e| !matches!(e, PEv::N(_))) {
+          if pos + 1 != got.len() {
+            return Verdict::Violation { sig: "threads:after-terminal:SubjectThreads".into(), detail: format!("probe {p} received {:?}", got) };
+          }
+        }
+        let sub = if o.pre_probes.contains(&p) { Some((0, 0)) } else { sub_of(p) };
+        let Some((sb, se)) = sub else { continue };
+        let unsub = unsub_of(p);
+        for call in o.calls.iter().filter(|c| c.item.is_some() && c.what == "Next(0)") {
+          let v = call.item.unwrap();
+          let cnt = got.iter().filter(|e| ***e == PEv::N(v)).count();
+          if cnt > 1 {
+            return Verdict::Violation { sig: "threads:duplicate:SubjectThreads".into(), detail: format!("probe {p} received item {v} {cnt} times") };
+          }
+          let must = se < call.begin && unsub.map_or(true, |(ub, _)| ub > call.end) && term.map_or(true, |(tb, _)| tb > call.end);
+          let must_not = call.end < sb || unsub.map_or(false, |(_, ue)| ue < call.begin) || term.map_or(false, |(_, te)| te < call.begin);
+          if must && cnt != 1 {
+            return Verdict::Violation {
+              sig: "threads:lost:SubjectThreads".into(),
+              detail: format!("probe {p} was subscribed (subscribe returned at t={se}) before next({v}) began (t={}..{}) and neither unsubscribed nor terminated before it ended, but did not receive it", call.begin, call.end),
+            };
+          }
+          if must_not && cnt != 0 {
+            return Verdict::Violation { sig: "threads:unexpected:SubjectThreads".into(), detail: format!("probe {p} received item {v} although it was not subscribed during next({v}) (t={}..{})", call.begin, call.end) };
+          }
+        }
+        // per-producer order
+        for t in 0..n {
+          let mine: Vec<i64> = got.iter().filter_map(|e| if let PEv::N(v) = e { Some(*v) } else { None }).filter(|v| *v / 100 == t as i64 + 1).collect();
+          let mut sorted = mine.clone();
+          sorted.sort();
+          if sorted != mine {
+            return Verdict::Violation { sig: "threads:producer-order:SubjectThreads".into(), detail: format!("probe {p} received the items of thread {t} as {:?}", mine) };
+          }
+        }
+      }
+      Verdict::Ok
+    })();
+  }
+  let desc = if ctx.want_desc || matches!(verdict, Verdict::Violation { .. }) {
+    let mut j = case_json(&case, Some(&o));
+    j["calls(thread, op, begin..end)"] = json!(o.calls.iter().map(|c| format!("t{} {} {}..{}", c.tid, c.what, c.begin, c.end)).collect::<Vec<_>>());
+    j["deliveries(time, probe, event)"] = json!(o.deliveries.iter().map(|(t, p, e)| format!("{t}: {p} {e:?}")).collect::<Vec<_>>());
+    Some(j)
+  } else {
+    None
+  };
+  let mut labels = vec!["part:threads"];
+  if o.stats.preempted_inside_call > 0 {
+    labels.push("preempted-inside-call");
+  }
+  Outcome { verdict, nontrivial: o.stats.preempted_inside_call > 0, hash: hash_of(&case), labels, notes: vec![], desc }
 }
